@@ -79,7 +79,7 @@ def showAclLines (h nm : String) (a : Acl) : List String :=
 def showInventory (inv : Inventory) : String :=
   let nodeLines := inv.nodes.flatMap fun n =>
     let h := n.hostname
-    [s!"node {h} {showKind n.kind} {showPower n.power} sud={n.startUp} sdd={n.shutDown} scan={n.scan} fsd={showOpt toString n.folderScan}/{showOpt toString n.folderRestore} dns={showOpt showIp n.dns} gw={showOpt showIp n.gateway}"]
+    [s!"node {h} {showKind n.kind} {showPower n.power} sud={n.startUp} sdd={n.shutDown} scan={n.scan} fsd={showOpt toString n.folderScan}/{showOpt toString n.folderRestore} dns={showOpt showIp n.dns} gw={showOpt showIp n.gateway} flags={showBool n.flags.revealed}/{n.flags.startUpCountdown}/{n.flags.shutDownCountdown}/{showBool n.flags.resetting}"]
     ++ (enumFrom 1 n.nics).map (fun (i, c) => s!"nic {h} {i} {showOpt id c.name} {showOpt showIp c.ip} {showOpt showIp c.mask} wired={showBool c.wired} en={showBool c.enabled} freq={showOpt id c.frequency}")
     ++ n.acls.flatMap (fun (nm, a) => showAclLines h nm a)
     ++ (enumFrom 0 n.routes).map (fun (i, r) => s!"route {h} {i} {showIp r.addr} {showIp r.mask} {showIp r.hop} {r.metric}")
@@ -138,6 +138,14 @@ def step (s : St) : List String → St × String
       ({ s with nodes := { kind := k, hostname := host, power := st, startUp := sud, shutDown := sdd, dns := dns, gateway := gw,
                            ip := ip, mask := mask, numPorts := np } :: s.nodes }, "ok")
     | _, _, _, _, _, _, _, _, _ => (s, "bad-op")
+  | ["nodeflags", r, a, b, z] =>
+    match a.toNat?, b.toNat? with
+    | some a, some b => updNode s fun n => { n with flags := { revealed := r == "1", startUpCountdown := a, shutDownCountdown := b, resetting := z == "1" } }
+    | _, _ => (s, "bad-op")
+  | ["nodescan", k] =>
+    match k.toNat? with
+    | some k => updNode s fun n => { n with scan := some k }
+    | none => (s, "bad-op")
   | ["port", k, ip, mask] =>
     match k.toNat?, parseIp ip, parseOpt parseIp mask with
     | some k, some ip, some mask => updNode s fun n => { n with ports := n.ports ++ [(k, { ip := ip, mask := mask })] }
